@@ -202,6 +202,7 @@ func allSpecsRaw() []*HarnessSpec {
 			Quick: []Grid{{"skel": append([]int{0, 1, 2, 7, 11}, step(100, 150, 5)...), "opt": {16, 9, 0}, "enc": {1}, "runs": {0}, "check": {1}, "lq": {0}},
 				// a returned trie keeps satisfying the guarantees while later builds run / after earlier ones
 				{"skel": {0, 2, 3, 105}, "opt": {16, 2}, "enc": {1}, "runs": {0}, "check": {1}, "lq": {0}, "other": {1, 2}},
+				{"skel": {12, 13, 14, 19, 23, 24, 25}, "opt": {16, 9, 0}, "enc": {1}, "runs": {0}, "check": {1}, "lq": {0}},
 				{"skel": {0, 2, 105}, "opt": {16}, "enc": {1}, "runs": {0}, "check": {1}, "lq": {0}, "pre": {150}},
 				// accepted values: symbolic String16 values of symbolic lengths, and the empty-or-two-byte encoder
 				{"skel": {20, 21, 22}, "opt": {16, 0}, "enc": {2}, "runs": {0}, "check": {1}, "lq": {0}, "symv": {1}, "vl": {2}},
@@ -383,8 +384,10 @@ func apiSpecs() []*HarnessSpec {
 		// length-diverse skeletons (12, 13: key lengths on and around 32/64/128/256 bytes) and a key
 		// that is also an inner node with all 16 branches (14)
 		q3 = append(q3, l3Grid(p.check, []int{12, 13, 14}, p.small[:2], enc3, []int{0, 2}, lq3Q))
-		// 12 x 12 two-byte keys (nested 257-bit nodes); runs=112: the first twelve keys share one value
-		q3 = append(q3, l3Grid(p.check, []int{19}, p.small[:2], enc3, []int{0, 112, 12}, lqS))
+		// 12 x 12 two-byte keys (nested 257-bit nodes; 25: with labels up to 0xff); runs=112: the first twelve keys share one value
+		q3 = append(q3, l3Grid(p.check, []int{19, 25}, p.small[:2], enc3, []int{0, 112, 12}, lqS))
+		// prefix keys of 9..63 bytes followed by a separator byte below 0x10 (pairs, triples)
+		q3 = append(q3, l3Grid(p.check, []int{23, 24}, p.small[:2], enc3, []int{0, 2}, lqS))
 		// a root with all 256 byte branches (17), and the empty key as well (18)
 		if len(p.lqQ) > 1 {
 			// (a symbolic first query byte forks into all 256 branches: one option case, runs of 3)
@@ -462,7 +465,7 @@ func apiSpecs() []*HarnessSpec {
 		Quick: []Grid{{"skel": {0, 1, 2, 3, 7}, "opt": {9}, "enc": {1}, "runs": {0, 2}, "check": {4}, "lq": {1, 2}, "api": {0}, "le": {1}, "stop": {0}},
 			{"skel": {100, 102, 104, 106, 108, 310}, "opt": {9}, "enc": {1}, "runs": {0, 3}, "check": {4}, "lq": {1}, "api": {0}, "le": {1}, "stop": {0}}, // larger sweeps / aligned sets: thorough (minutes per item)
 			{"skel": {0}, "opt": {9}, "enc": {2}, "runs": {0}, "check": {4}, "lq": {1}, "api": {0, 2}, "le": {2}, "stop": {0}},
-			{"skel": {12, 13, 14}, "opt": {9}, "enc": {1}, "runs": {0}, "check": {4}, "lq": {1}, "api": {0}, "le": {1}, "stop": {0}},
+			{"skel": {12, 13, 14, 23, 24, 25}, "opt": {9}, "enc": {1}, "runs": {0}, "check": {4}, "lq": {1}, "api": {0}, "le": {1}, "stop": {0}},
 			{"skel": {18}, "opt": {9}, "enc": {1}, "runs": {0}, "check": {4}, "lq": {0}, "api": {0}, "le": {1}, "stop": {0}},
 			{"skel": {0, 1, 2, 20, 21, 22, 101}, "opt": {9}, "enc": {1}, "runs": {0}, "check": {4}, "lq": {0}, "api": {0, 2}, "le": {0, 1}, "stop": {0}}, // the empty start / end string
 			// a second pair of scans after the first iterator was polled past its end
@@ -496,7 +499,9 @@ func apiSpecs() []*HarnessSpec {
 			{"skel": step(100, 150, 5), "opt": {1}, "enc": {1}, "runs": {0, 3}, "check": {13}, "lq": {1}},
 			{"skel": {12, 13, 14}, "opt": {1}, "enc": {1}, "runs": {0, 2}, "check": {13}, "lq": {1}},
 			{"skel": {17, 18}, "opt": {1}, "enc": {1}, "runs": {3}, "check": {13}, "lq": {1}},
-			{"skel": {0, 1, 12, 13}, "opt": {1}, "enc": {1}, "runs": {0}, "check": {13}, "lq": {0, 1}, "qkey": {-1}, "qtail": {0, 40}}},
+			{"skel": {0, 1, 12, 13}, "opt": {1}, "enc": {1}, "runs": {0}, "check": {13}, "lq": {0, 1}, "qkey": {-1}, "qtail": {0, 40}},
+			{"skel": {0, 1, 2, 13}, "opt": {1, 0}, "enc": {1}, "runs": {0}, "check": {13}, "lq": {0, 1}, "qkey": {-1}, "other": {1}},
+			{"skel": {19, 23, 24, 25}, "opt": {1}, "enc": {1}, "runs": {0, 2}, "check": {13}, "lq": {1}}},
 		Thorough: []Grid{{"skel": {0, 1, 2, 3, 4}, "opt": {0, 1}, "enc": {1}, "runs": {0, 2}, "check": {13}, "lq": {0, 1, 2, 3, 4, 5}}},
 		Note:     "L3: same on skeleton key sets"})
 	// ---- C19 String ----
@@ -507,7 +512,7 @@ func apiSpecs() []*HarnessSpec {
 			{"n": {2}, "L": {2}, "lens": rng(0, 8), "opt": optsDistinct, "enc": {1, 0, 3}, "check": {19}, "lq": {0}, "cv": {0, 2}, "alpha": {1}}},
 		Note: "String() on every build path: no panic, one line per node, leaf lines carry the retained (concrete) values in key order"})
 	out = append(out, &HarnessSpec{Name: "l3_api", Pkg: "trie", Property: "C19", Witness: 1,
-		Quick: []Grid{{"skel": {0, 1, 2, 3, 4, 5, 6, 7, 8, 12, 13, 14, 17, 18}, "opt": {16, 9}, "enc": {1}, "runs": {0, 2}, "check": {19}, "lq": {0}, "loaded": {0, 1}},
+		Quick: []Grid{{"skel": {0, 1, 2, 3, 4, 5, 6, 7, 8, 12, 13, 14, 17, 18, 19, 23, 24, 25}, "opt": {16, 9}, "enc": {1}, "runs": {0, 2}, "check": {19}, "lq": {0}, "loaded": {0, 1}},
 			{"skel": {16}, "opt": {16, 9}, "enc": {1}, "runs": {0}, "check": {19}, "lq": {0}, "loaded": {0, 1}}, // thousands of nodes (ids of four and more digits)
 			{"skel": append(step(100, 150, 1), append(rng(300, 306), rng(310, 315)...)...), "opt": {16, 9}, "enc": {1}, "runs": {0}, "check": {19}, "lq": {0}, "loaded": {0}}},
 		Thorough: []Grid{{"skel": {0, 1, 2, 3, 4, 5, 6, 7, 8, 9}, "opt": optsDistinct, "enc": {1, 3}, "runs": {0, 1, 2, 3}, "check": {19}, "lq": {0}, "loaded": {0, 1}}},
@@ -524,7 +529,7 @@ func apiSpecs() []*HarnessSpec {
 		Quick: []Grid{{"skel": {0, 1, 2, 4, 5, 10}, "opt": {16, 9}, "enc": {1}, "runs": {0, 2}, "check": {5}, "lq": {1, 2}},
 			{"skel": {100, 102, 104}, "opt": {16, 9}, "enc": {1}, "runs": {0}, "check": {5}, "lq": {1}},
 			{"skel": {8, 9, 7}, "opt": {9, 4, 2}, "enc": {1}, "runs": {0}, "check": {5}, "lq": {1}}, // 64 / 128 leaves, 512-bit Inners: word-aligned counts with every prefix mode
-			{"skel": {12, 13, 14}, "opt": {16, 9}, "enc": {1}, "runs": {0}, "check": {5}, "lq": {1}},
+			{"skel": {12, 13, 14, 19, 23, 24, 25}, "opt": {16, 9}, "enc": {1}, "runs": {0}, "check": {5}, "lq": {1}},
 			{"skel": {17, 18}, "opt": {16}, "enc": {1}, "runs": {0}, "check": {5}, "lq": {0}},
 			{"skel": {0, 13}, "opt": {16, 9}, "enc": {1}, "runs": {0}, "check": {5}, "lq": {1}, "qkey": {-1}, "qtail": {40}},
 			{"skel": append(step(105, 150, 5), 300, 301, 303, 304, 310, 311, 314), "opt": {16, 9, 4}, "enc": {1}, "runs": {0}, "check": {5}, "lq": {1}, "det": {0}}},
@@ -621,6 +626,7 @@ func apiSpecs() []*HarnessSpec {
 	out = append(out, &HarnessSpec{Name: "ix_skel", Pkg: "index", Property: "C12", Witness: 1,
 		Quick: []Grid{{"keys": {7, 105, 120, 154, 194, 342}, "bs": {1, 3, 64}, "lq": {1}},
 			{"keys": {12, 13}, "bs": {1, 3}, "lq": {1}}, // key lengths 0..300, on and around 32/64/128/256 bytes
+			{"keys": {23, 24}, "bs": {1, 2, 5}, "lq": {1}}, // prefix keys of 9..63 bytes followed by a separator byte below 0x10
 			{"keys": {17, 18}, "bs": {1, 3}, "lq": {0}}, // all 256 byte branches at the root (and the empty key); every key is looked up
 			{"keys": {7, 105, 154}, "bs": {1, 3}, "lq": {1}, "other": {1, 2, 3}}},
 		Thorough: []Grid{{"keys": append([]int{7, 154, 194, 342, 623}, step(105, 400, 15)...), "bs": {1, 2, 3, 7, 64}, "lq": {1, 2}}, {"keys": {7, 105, 120, 154, 194, 342}, "bs": {1, 3, 64}, "lq": {1}, "other": {1, 2, 3}}},
